@@ -316,8 +316,9 @@ theorem merge_step (r : Range) (xs : List Rat) (s : MergeSt) (c : Nat) (h : Inv 
   generalize hp : linepartLinear ((xs.drop c).take s.old.raw) (some r) = p at hcall hraw ⊢
   have hcut : (if p.usr ≠ 0 ∧ s.old.cut > p.cut then s.old.cut else p.cut) = p.cut := by
     rw [ho4, if_neg (by omega)]
-  have htrim : ∀ u, (if u ≠ 0 ∧ u = s.old.raw ∧ s.old.trim > p.trim then s.old.trim else p.trim) = p.trim := by
-    intro u; rw [ho5, if_neg (by omega)]
+  have htrim : ∀ (u : Nat) (Q : Prop) [Decidable Q],
+      (if u ≠ 0 ∧ Q ∧ u = s.old.raw ∧ s.old.trim > p.trim then s.old.trim else p.trim) = p.trim := by
+    intro u Q _; rw [if_neg]; intro h; have := h.2.2.2; omega
   simp only [hcut, htrim]
   have hpe : ({ raw := p.raw, usr := p.usr, cut := p.cut, trim := p.trim } : Part) = p := rfl
   by_cases hpart : p.raw < s.old.raw
